@@ -30,6 +30,7 @@ import (
 	"sort"
 	"strconv"
 	"strings"
+	"unicode/utf8"
 
 	"github.com/google/cel-go/cel"
 	"github.com/google/cel-go/common/types"
@@ -321,7 +322,14 @@ func (m MatchHost) MatchWithError(r *http.Request) (bool, error) {
 		reqHost = strings.TrimSuffix(reqHost, "]")
 	}
 
-	if m.large() {
+	// the fast paths below compare lower-cased strings byte for byte, which is
+	// the same as the case-folded comparison of the linear search only if the
+	// request host is ASCII (the exact entries always are, see Provision); any
+	// other host takes the linear search over the whole list, so that the
+	// result does not depend on the size of the list
+	large := m.large() && isASCII(reqHost)
+
+	if large {
 		// fast path: locate exact match using binary search (about 100-1000x faster for large lists)
 		reqHostLower := strings.ToLower(reqHost)
 		pos := sort.Search(len(m), func(i int) bool {
@@ -343,7 +351,7 @@ outer:
 		// match, so we're only looking for fuzzy match now, which should be at the
 		// front of the list; if we have reached a value that is not fuzzy, there
 		// will be no match and we can short-circuit for efficiency
-		if m.large() && !m.fuzzy(host) {
+		if large && !m.fuzzy(host) {
 			break
 		}
 
@@ -398,6 +406,16 @@ func (MatchHost) CELLibrary(ctx caddy.Context) (cel.Library, error) {
 // fuzzy returns true if the given hostname h is not a specific
 // hostname, e.g. has placeholders or wildcards.
 func (MatchHost) fuzzy(h string) bool { return strings.ContainsAny(h, "{*") }
+
+// isASCII returns true if s consists of ASCII bytes only.
+func isASCII(s string) bool {
+	for i := 0; i < len(s); i++ {
+		if s[i] >= utf8.RuneSelf {
+			return false
+		}
+	}
+	return true
+}
 
 // large returns true if m is considered to be large. Optimizing
 // the matcher for smaller lists has diminishing returns.
